@@ -114,3 +114,27 @@ func HarnessC18BinaryHeader() {
 	check(err2 == nil, "padded rendering is accepted")
 	check(string(dec2) == string(b), "padded rendering decodes to the same bytes")
 }
+
+// HarnessC18BinaryHeaderLong: binary header values of lengths straddling the
+// sizes at which an implementation could switch strategy (fixed scratch
+// buffers, pooled buffers): 2^k and 3*2^k, each -1/0/+1, up to 257 bytes.
+// Contents: a fixed pattern with symbolic first and last bytes (a symbolic
+// fill makes every base64 digit a solver term: 15 minutes).  Encode and
+// decode never panic and round-trip; the text is unpadded base64.
+//
+//verif:harness property=C18
+func HarnessC18BinaryHeaderLong() {
+	lengths := []int{31, 32, 33, 47, 48, 49, 63, 64, 65, 95, 96, 97, 127, 128, 129, 191, 192, 193, 255, 256, 257}
+	n := lengths[nondetChoice("length", len(lengths))]
+	b := make([]byte, n)
+	for i := range b {
+		b[i] = byte(i*7 + 3)
+	}
+	b[0] = nondetByte("first")
+	b[n-1] = nondetByte("last")
+	enc := EncodeBinaryHeader(b)
+	check(len(enc) == (n*8+5)/6, "the encoded length is that of unpadded base64")
+	dec, err := DecodeBinaryHeader(enc)
+	check(err == nil, "DecodeBinaryHeader(EncodeBinaryHeader(b)) succeeds for long values")
+	check(err != nil || bytesEq(dec, b), "long binary header values round-trip")
+}
